@@ -1670,15 +1670,17 @@ func trunc(s []string) []string {
 // scanner constants (shared by C05 G1/G7, C09 K0, C12 L5)
 
 type scanKeywords struct {
-	Operators  []string // constants tried by readOperator, in order
-	Prefixes   []string // DocumentRef- / LicenseRef-
-	IDPattern  string
-	Patterns   []string
-	WSPattern  string
-	ReadFn     *ssa.Function
-	ReadRegex  *ssa.Function
-	ReadClass  *ssa.Function // the stream method that reads a run of bytes accepted by a func(byte) bool
-	OperatorFn *ssa.Function
+	Operators []string // constants tried by readOperator, in order
+	Prefixes  []string // DocumentRef- / LicenseRef-
+	IDPattern string
+	Patterns  []string
+	WSPattern string
+	ReadFn    *ssa.Function
+	ReadRegex *ssa.Function
+	ReadClass *ssa.Function // the stream method that reads a run of bytes accepted by a func(byte) bool
+	// every function that reads a run of id bytes: ReadClass and the stream methods with such a loop in place
+	ClassReaders []*ssa.Function
+	OperatorFn   *ssa.Function
 }
 
 func (k *scanKeywords) All() []string {
@@ -1770,6 +1772,126 @@ func scannerKeywords(p *Prog) (*scanKeywords, error) {
 			}
 		}
 		k.ReadClass = f
+	}
+	// the same reader written in place: a loop of a stream method that tests the byte at the cursor with a
+	// byte predicate (or against one constant byte) and steps the cursor by one while it holds
+	for _, f := range p.RList {
+		if f.Signature.Recv() == nil || !strings.Contains(f.String(), "expressionStream") || len(f.Params) == 0 {
+			continue
+		}
+		for _, b := range f.Blocks {
+			ifi, ok := b.Instrs[len(b.Instrs)-1].(*ssa.If)
+			if !ok {
+				continue
+			}
+			byteAtCursor := func(v ssa.Value) (string, bool) {
+				var x, idx ssa.Value
+				switch t := v.(type) {
+				case *ssa.Index:
+					x, idx = t.X, t.Index
+				case *ssa.Lookup:
+					x, idx = t.X, t.Index
+				default:
+					return "", false
+				}
+				lx, ok1 := x.(*ssa.UnOp)
+				li, ok2 := idx.(*ssa.UnOp)
+				if !ok1 || !ok2 || lx.Op != token.MUL || li.Op != token.MUL || !isStringType(x.Type()) {
+					return "", false
+				}
+				fx, ok1 := lx.X.(*ssa.FieldAddr)
+				fi, ok2 := li.X.(*ssa.FieldAddr)
+				if !ok1 || !ok2 || fx.X != ssa.Value(f.Params[0]) || fi.X != ssa.Value(f.Params[0]) {
+					return "", false
+				}
+				return fieldOf(fi).Field, true
+			}
+			var cls [256]bool
+			cursor := ""
+			switch c := ifi.Cond.(type) {
+			case *ssa.Call:
+				pred := c.Call.StaticCallee()
+				if pred == nil || !p.InModule(pred) || len(c.Call.Args) != 1 || pred.Signature.Recv() != nil {
+					continue
+				}
+				fld, ok := byteAtCursor(c.Call.Args[0])
+				if !ok {
+					continue
+				}
+				cursor = fld
+				var err error
+				cls, err = evalBytePred(pred)
+				if err != nil {
+					return nil, fmt.Errorf("%s: byte predicate %s: %v", p.pos(c.Pos()), pred.Name(), err)
+				}
+			case *ssa.BinOp:
+				if c.Op != token.EQL {
+					continue
+				}
+				matched := false
+				for _, pair := range [][2]ssa.Value{{c.X, c.Y}, {c.Y, c.X}} {
+					kc, isK := pair[1].(*ssa.Const)
+					fld, ok := byteAtCursor(pair[0])
+					if !isK || !ok || kc.Value == nil {
+						continue
+					}
+					if bv, exact := constant.Int64Val(constant.ToInt(kc.Value)); exact && bv >= 0 && bv < 256 {
+						cls[bv] = true
+						cursor = fld
+						matched = true
+					}
+				}
+				if !matched {
+					continue
+				}
+			default:
+				continue
+			}
+			// the accepted edge steps the cursor by one and loops
+			steps := false
+			tb := b.Succs[0]
+			for _, in := range tb.Instrs {
+				st, ok := in.(*ssa.Store)
+				if !ok {
+					continue
+				}
+				fa, ok := st.Addr.(*ssa.FieldAddr)
+				if !ok || fa.X != ssa.Value(f.Params[0]) || fieldOf(fa).Field != cursor {
+					continue
+				}
+				if bo, ok := st.Val.(*ssa.BinOp); ok && bo.Op == token.ADD {
+					if one, ok := bo.Y.(*ssa.Const); ok && one.Value != nil && one.Int64() == 1 {
+						if ld, ok := bo.X.(*ssa.UnOp); ok && ld.Op == token.MUL {
+							if fa2, ok := ld.X.(*ssa.FieldAddr); ok && fa2.X == fa.X && fieldOf(fa2).Field == cursor {
+								steps = true
+							}
+						}
+					}
+				}
+			}
+			loops := false
+			for _, s2 := range tb.Succs {
+				if s2 == b || s2.Dominates(b) {
+					loops = true
+				}
+			}
+			if !steps || !loops {
+				continue
+			}
+			rep := "*"
+			if cls['a'] || cls['A'] || cls['0'] {
+				rep = "+"
+				k.ClassReaders = append(k.ClassReaders, f)
+			}
+			pat, err := byteClassPattern(cls, rep)
+			if err != nil {
+				return nil, fmt.Errorf("%s: byte class of the scanning loop: %v", p.pos(ifi.Pos()), err)
+			}
+			extraPatterns = append(extraPatterns, pat)
+		}
+	}
+	if k.ReadClass != nil {
+		k.ClassReaders = append(k.ClassReaders, k.ReadClass)
 	}
 	if k.ReadFn == nil {
 		return nil, fmt.Errorf("unresolved anchor: the stream method that matches literal keywords (wrapper of strings.HasPrefix)")
